@@ -347,7 +347,7 @@ NoLinkPrefix(p) == \A j \in 1..(Len(p) - 1) : LET i == Lstat(tree, SubSeq(p, 1, 
 DetachOpen(fd, t) == [g \in Fids |-> IF fd[g].onode # 0 /\ K(t, fd[g].onode) = "-" THEN [fd[g] EXCEPT !.onode = 0] ELSE fd[g]]
 
 Open(f, m) ==
-  /\ "Open" \in Ops /\ fid[f].used /\ Fresh(fid[f]) /\ NotLink(fid[f])
+  /\ "Open" \in Ops /\ fid[f].used /\ Fresh(fid[f])    \* a fid on a symbolic link opens what the link leads to, and still is the link
   /\ fid[f].open < 0     \* Topen on an open fid is refused by srv_fcall.go (fid-table rules: C04/C05, not modelled here)
   /\ LET op == <<"Open", f, m>>
          F == fid[f]
@@ -362,27 +362,30 @@ Open(f, m) ==
 CreateNames == Names \cup Specials
 ValidName(n) == Plain(n)
 
-(* kind: "F" file, "D" directory, "L" symlink to ext, "H" hard link to the file of fid number g *)
+(* kind: "F" file, "D" directory, "L" symlink to ext, "H" hard link to the file of fid number g,
+   "P" named pipe: Ufs.Create creates nothing for DMNAMEDPIPE and then opens the name like the other special kinds, so it
+   fails with ENOENT on a free name and opens whatever already has the name (what the code does, named here) *)
 Create(f, name, kind, perm, m, ext, g) ==
   /\ "Create" \in Ops /\ fid[f].used /\ Fresh(fid[f]) /\ HasFree(tree)
   /\ kind \in CreateKinds
   /\ (kind = "H") = (g # 0)
   /\ g # 0 => fid[g].used /\ g # f /\ ~Dotted(fid[g].path) /\ NotLink(fid[g])   \* hard link to a symlink: out of scope
   /\ (kind = "L") = (ext # "")
-  /\ kind \in {"L", "H"} => m = 0 /\ perm = 420
+  /\ kind \in {"L", "H", "P"} => m = 0 /\ perm = 420
   /\ kind = "D" => m = 0
   /\ LET op == <<"Create", f, name, kind, perm, m, ext, g>>
          F == fid[f]
          p == IF FixConfine THEN F.path \o <<name>> ELSE F.path \o Comps(name)
          ls == Lstat(tree, F.path)
      IN /\ (kind = "F" /\ Lstat(tree, p) > 0) => K(tree, Lstat(tree, p)) # "L"   \* creating through an existing symlink: out of scope
-        /\ IF F.open >= 0 \/ F.qt # "D" \/ (kind \in {"L", "H"} /\ ~Dotu)
+        /\ IF F.open >= 0 \/ F.qt # "D" \/ (kind \in {"L", "H", "P"} /\ ~Dotu)
            THEN /\ obs' = Err(op, 0) /\ UNCHANGED <<tree, fid>>
            ELSE IF ls < 0 THEN /\ obs' = Err(op, 0 - ls) /\ UNCHANGED <<tree, fid>>
            ELSE IF FixConfine /\ ~ValidName(name) THEN /\ obs' = Err(op, 0) /\ UNCHANGED <<tree, fid>>
            ELSE LET r1 == CASE kind = "D" -> P_mkdir(tree, p, perm)
                             [] kind = "L" -> P_symlink(tree, ext, p)
                             [] kind = "H" -> P_link(tree, fid[g].path, p)
+                            [] kind = "P" -> R(tree, 0)
                             [] OTHER -> P_open(tree, p, Acc(m), Trunc(m), TRUE, perm)
                 IN IF r1.e # 0 THEN /\ obs' = Err(op, r1.e) /\ UNCHANGED <<tree, fid>>
                    ELSE LET r2 == IF kind = "F" THEN r1 ELSE P_open(r1.t, p, Acc(m), Trunc(m), FALSE, 0)
@@ -483,6 +486,7 @@ Next ==
   \/ \E f \in Fids, name \in CreateNames, perm \in Perms : Create(f, name, "D", perm, 0, "", 0)
   \/ \E f \in Fids, name \in CreateNames, ext \in LinkTargets : Create(f, name, "L", 420, 0, ext, 0)
   \/ \E f \in Fids, name \in CreateNames, g \in Fids : Create(f, name, "H", 420, 0, "", g)
+  \/ \E f \in Fids, name \in CreateNames : Create(f, name, "P", 420, 0, "", 0)
   \/ \E f \in Fids : Remove(f)
   \/ \E f \in Fids, nn \in RenameNames : Rename(f, nn)
   \/ \E f \in Fids, n \in Lens : Truncate(f, n)
@@ -565,7 +569,8 @@ Mutating == {"Create", "Remove", "Rename", "Truncate", "Chmod", "Mtime", "Open",
 MutationsMirrorA ==
   LET o == obs' IN
     /\ o.op[1] \notin Mutating => tree' = tree
-    /\ (o.op[1] \in Mutating \ {"Write", "Wstat"} /\ o.res = "ok" /\ (OpIs(o, "Create") => Plain(o.op[3]))) =>
+    \* (a create of a named pipe is not one of the mutating requests C17 lists; Ufs creates nothing for it)
+    /\ (o.op[1] \in Mutating \ {"Write", "Wstat"} /\ o.res = "ok" /\ (OpIs(o, "Create") => Plain(o.op[3]) /\ o.op[4] # "P")) =>
           LET r == PosixOf(o)
           IN /\ r.e = 0
              /\ IF OpIs(o, "Create") /\ o.op[4] # "F"
@@ -598,7 +603,7 @@ ErrnoCarried == [][ErrnoCarriedA]_vars
 
 FidFollowsA ==
   LET o == obs' IN
-    /\ (OpIs(o, "Create") /\ o.res = "ok") =>
+    /\ (OpIs(o, "Create") /\ o.res = "ok" /\ o.op[4] # "P") =>
           /\ Lstat(tree', fid'[o.op[2]].path) = o.qids[1].id
           /\ Plain(o.op[3]) => fid'[o.op[2]].path = fid[o.op[2]].path \o <<o.op[3]>>
           /\ Lstat(tree, fid'[o.op[2]].path) < 0 \/ o.op[4] = "F"        \* it is the created object
